@@ -2,6 +2,7 @@ package props
 
 import (
 	"fmt"
+	"math"
 
 	jd "github.com/josephburnett/jd/v2"
 
@@ -237,10 +238,33 @@ func init() {
 			N:    qt(12000, 250000),
 			Run: func(c *mon.Ctx, i int) {
 				prof := c01Profiles[i%len(c01Profiles)]
-				if o.Merge && prof.Scalars[len(prof.Scalars)-1] == nil {
-					prof = gen.PObjects
+				var a, b any
+				switch {
+				case o.Merge && i%3 == 0:
+					a, b = gen.Pair(c.R, gen.PNulls.With(func(p *gen.Profile) { p.PArr = 0.3 })) // nulls are legal here
+				case len(o.Keys) == 0 && i%5 == 4:
+					a, b = gen.DeepChainPair(c.R, prof, false)
+					c.Feature("deep_chain_pairs")
+				default:
+					if o.Merge && prof.Scalars[len(prof.Scalars)-1] == nil {
+						prof = gen.PObjects
+					}
+					a, b = PairFor(c.R, o, prof)
 				}
+				c07Judge(c, ref.ToJSON(a), ref.ToJSON(b), o)
+			},
+		})
+	}
+	for _, o := range []OptSet{OptNone, OptSetO, OptMset, OptKeys1} {
+		o := o
+		p.Strata = append(p.Strata, mon.Stratum{
+			Name: "zero-signs/" + o.Name,
+			N:    qt(2000, 40000),
+			Run: func(c *mon.Ctx, i int) {
+				// 0 and -0 are the same number: a hunk that swaps one for the other reports no real difference
+				prof := gen.PTiny.With(func(p *gen.Profile) { p.Scalars = []any{0.0, math.Copysign(0, -1), 1.0, "a"} })
 				a, b := PairFor(c.R, o, prof)
+				c.Feature("zero_sign_pairs")
 				c07Judge(c, ref.ToJSON(a), ref.ToJSON(b), o)
 			},
 		})
